@@ -71,6 +71,7 @@ fn thr_gen_cfg(rng: &mut Rng, legacy: bool) -> GenCfg {
         op_b: rng.chance(1, 3),
         render: rng.chance(1, 4),
         channels: rng.chance(1, 4),
+        cap_in_cmd: false,
     }
 }
 
@@ -187,6 +188,7 @@ impl ThrCheck {
             max_steps: crng.range(1, 8) as u32,
             max_batch: 1,
             drops: false,
+            bridge_drops: false,
             dups: false,
             aborts: false,
             noops: false,
